@@ -494,6 +494,8 @@ package handlers
 //@   requires !ghost(w).started && len(ghost(w).hdr["Content-Type"]) == 0 && allocated(ghost(w).hdr)
 //@   modifies *
 //@   at return 1 assert ghost(w).started && ghost(w).status == 502 && pxCalls == old(pxCalls)
+// the engine sees the path with the route prefix stripped (C16: "the request's remaining path")
+//@   at call executeProxyRequest 1 assert r.URL.Path == pr.targetPath
 //@   ensures pxCalls == old(pxCalls) ==> ghost(w).started
 //@   ensures pxCalls == old(pxCalls) || pxCalls == old(pxCalls) + 1
 //@   ensures decisionCount == old(decisionCount) + 1 && lastDecision != nil && lastDecision.Action == "rejected" && lastDecision.StatusCode >= 400 ==> pxCalls == old(pxCalls) && ghost(w).started && ghost(w).status == lastDecision.StatusCode
@@ -531,6 +533,7 @@ package handlers
 //@   at return 3 assert ghost(w).started && ghost(w).status == 502 && pxCalls == old(pxCalls)
 //@   at return 4 assert ghost(w).started && ghost(w).status >= 400 && pxCalls == old(pxCalls)
 //@   at return 5 assert ghost(w).started && ghost(w).status == 404 && pxCalls == old(pxCalls)
+//@   at call executeProxyRequest 1 assert r.URL.Path == pr.targetPath
 //@   at call executeProxyRequest 1 assert len(endpoints) > 0 && lastProviderProfile != nil && (forall k int :: 0 <= k && k < len(endpoints) ==> epCompatible(endpoints[k], lastProviderProfile.SupportedBy))
 // ... and what that profile admits is this provider only (or, for the OpenAI prefixes, declared-compatible types only)
 //@   at call executeProxyRequest 1 assert a.profileFactory != nil && normProv(providerType) != "openai" && normProv(providerType) != "openai-compatible" ==> (forall s string :: listedURL(s, lastProviderProfile.SupportedBy) <==> s == normProv(providerType))
